@@ -7,7 +7,7 @@ ASSUME = [
     'rejection loops are memoryless (an iteration reads nothing an earlier one wrote except the engine) and are followed for 3 iterations; deeper paths are outside '
     'the bound (counted in the evidence)',
     'covered models: Klein-Nishina, e+ annihilation (EPlusGG).  NOT covered: Livermore PE / relaxation, Rayleigh, Bethe-Heitler, Moller-Bhabha, Seltzer-Berger, '
-    'relativistic/combined brems, Coulomb/Wentzel, muon/hadron ionisation and bremsstrahlung, neutron elastic; momentum balance and unit-norm directions',
+    'relativistic/combined brems, Coulomb/Wentzel, muon/hadron ionisation and bremsstrahlung, neutron elastic; momentum balance of Klein-Nishina and unit-norm directions',
     'energy ranges "photon energy in (0,E]" need transcendental bounds and are only attempted in the thorough tier (may stay undecided)',
 ]
 TRUSTED = ['clang-14 -O1 lowering', 'llir/irsym real mode + lemma schemas', 'z3 5.1 nlsat / z3 4.8.12 / cvc5']
@@ -17,6 +17,10 @@ OBLS = [
         '(else its energy is deposited); explicit failure with nothing emitted when the stack is full; draws <= 4 + 3 per iteration', timeout=120, bounds='rejection loop <= 3 iterations', **O),
     Obl('C04.EPGG', H, 'obl_c04_eplusgg', 'B', 'EPlusGGInteractor (in flight and at rest): E_in + 2mc^2 = E_gamma1 + E_gamma2; two photons; absorbed; explicit failure with nothing '
         'emitted when fewer than 2 slots are free', timeout=120, bounds='rejection loop <= 3 iterations', **O),
+    Obl('C04.EPGGp', H, 'obl_c04_eplusgg', 'B', 'EPlusGGInteractor: the two photon momenta add up to the positron momentum (rotate cut to its contract; open known finding F9 in flight)',
+        timeout=40, bounds='rejection loop <= 3 iterations; in flight decided at a witness point, the general in-flight queries stay undecided', defines=('VERIF_CUT_ROTATE', 'VERIF_MOMENTUM'),
+        precut={'_ZN9celeritas6rotateIdEENS_5ArrayIT_Lm3EEERKS3_S5_': 'stub_rotate',
+                '_ZNK9celeritas22ReciprocalDistributionIdEclIN12_GLOBAL__N_17StubRngEEEdRT_': 'stub_recip'}, known=['F9'], **O),
     Obl('C04.KN+', H, 'obl_c04_klein_nishina', 'B', 'KleinNishina: additionally outgoing photon energy in (0,E], non-negative energies', timeout=900, tier='thorough',
         defines=('VERIF_POSITIVITY',), **O),
     Obl('C04.EPGG+', H, 'obl_c04_eplusgg', 'B', 'EPlusGG: additionally both photon energies positive', timeout=900, tier='thorough', defines=('VERIF_POSITIVITY',), **O),
